@@ -99,6 +99,32 @@ fn contexts(arg: f64, collide: &str, uid: usize) -> Vec<Ctxt> {
     ]
 }
 
+/// spellings for the captured name `k`: plain, and names that begin with / contain a reserved word, a predefined name or a
+/// built-in's name (capture must depend on the whole name, never on a prefix of it)
+const SPELLINGS: [&str; 24] = [
+    "k", "info", "inflation", "inf_rate", "infinity_x", "constants_v", "inputs_2", "iffy", "thenk", "donut", "nullable", "truex", "notify", "android", "order", "via_k", "outputs",
+    "returned", "K", "_k", "k9", "k_", "summary", "mapped",
+];
+
+/// `text` with the whole word `from` replaced by `to`
+fn rename_word(text: &str, from: &str, to: &str) -> String {
+    let cs: Vec<char> = text.chars().collect();
+    let f: Vec<char> = from.chars().collect();
+    let is_w = |c: char| c.is_alphanumeric() || c == '_';
+    let mut out = String::new();
+    let mut i = 0;
+    while i < cs.len() {
+        if cs[i..].starts_with(&f) && (i == 0 || !is_w(cs[i - 1])) && (i + f.len() >= cs.len() || !is_w(cs[i + f.len()])) && (i == 0 || cs[i - 1] != '"') {
+            out.push_str(to);
+            i += f.len();
+        } else {
+            out.push(cs[i]);
+            i += 1;
+        }
+    }
+    out
+}
+
 fn part_call_sites(ctx: &Ctx, sink: &mut Sink) {
     let rounds = ctx.budget(2500, 300_000);
     for i in 0..rounds {
@@ -109,6 +135,15 @@ fn part_call_sites(ctx: &Ctx, sink: &mut Sink) {
         let k = r.range(1, 9) as f64;
         let all = defs(k);
         let di = (i as usize / ctx.shard_n as usize) % all.len();
+        // every third round the captured name `k` is spelled differently (definition, colliding call sites and all)
+        let spelling = if i % 3 == 2 { SPELLINGS[(i as usize / (3 * ctx.shard_n as usize * all.len()).max(1) + i as usize / 3) % SPELLINGS.len()] } else { "k" };
+        let mut all = all;
+        if spelling != "k" {
+            let d = &mut all[di];
+            d.setup = d.setup.iter().map(|t| rename_word(t, "k", spelling)).collect();
+            d.captured = d.captured.iter().map(|c| if *c == "k" { spelling } else { *c }).collect();
+            d.class = d.class;
+        }
         let d = &all[di];
         let arg = if d.class == "captured-as-call-target-and-index" { r.below(3) as f64 } else { r.range(0, 12) as f64 };
         let expected = (d.expect)(arg);
